@@ -1332,6 +1332,12 @@ func (x *Exec) enterLoopHead(fr *Frame, st *State, b, prev *ssa.BasicBlock, lp *
 				g := x.evalClauseBool(c, envf(), st)
 				x.oblige(st, "invariant", fmt.Sprintf("loop%d:%s:preserved", lp.ordinal, c.Label), c.Tags, g, b.Instrs[0].Pos())
 			}
+			if fr.depth == 0 && fr.iterHeap != nil {
+				for _, c := range spec.Steps {
+					g := x.evalClauseBool(c, envf(), st)
+					x.oblige(st, "step", fmt.Sprintf("loop%d:%s", lp.ordinal, c.Label), c.Tags, g, b.Instrs[0].Pos())
+				}
+			}
 			if spec.Decreases != nil {
 				cur := x.evalClauseInt(spec.Decreases, envf(), st)
 				old := fr.loopVar[b]
